@@ -20,6 +20,7 @@ RULE = ("bech32: witness versions 0..16 (+17, 31) x program lengths 1..41 x hrps
         "{1,b,i,o,upper-case,Kelvin sign, dotless i, long s} of 12 addresses; base conversion 8->5 and 5->8 on every input of "
         "<= 3 symbols; Base58Check: payload patterns, every single substitution over 58+6 characters, transpositions, "
         "truncations; every script type x 5 networks x address<->script; WIF/xkey version prefixes x network x compression; "
+        "SLIP132: every version field of every network x private/public x root/depth-3 x address_from_xkey/address_from_xpub and the three per-purpose account-key helpers x 4 paths x check_root_xkey, vs the BIP32 reference derivation; "
         "ripemd160 on every length 0..300 x 2 fills. Non-trivial = the reference refuses the string, or a boundary length")
 ASSUMPTIONS = ["models/addr_ref.py is BIP173/BIP350/Base58Check (gated on the BIPs' valid and invalid vectors)",
                "3 or more simultaneous character errors are outside the bound (the BCH guarantee is the BIP's)", "hashlib's ripemd160 (OpenSSL) is the reference for the pure-Python one"]
@@ -482,6 +483,101 @@ def keys_and_prefixes(ctx):
     return st
 
 
+def slip132_keys(ctx):
+    """SLIP132: the address an extended key of each version stands for, and the per-purpose account keys, against the
+    transcribed BIP32 / Base58Check / BIP173 references. Every version field of every network x private/public x
+    root/non-root x 4 paths x the check_root_xkey switch."""
+    from btclib import slip132
+    from btclib.network import NETWORKS
+    from models import bip32_ref as B32
+
+    st = Stats()
+    errs = lib_errors()
+    seeds = [bytes(range(16)), hashlib.sha256(b"slip132-%d" % ctx.seed).digest()]
+    KINDS = ["bip32", "slip132_p2wpkh", "slip132_p2wpkh_p2sh", "slip132_p2wsh", "slip132_p2wsh_p2sh"]
+    # the oldest network with a prefix is the documented one to encode with: testnet for every test prefix
+    TYPES = {"main": ("mainnet", 0x00, 0x05, "bc"), "test": ("testnet", 0x6F, 0xC4, "tb")}
+
+    def payload(version, depth, pfp, index, c, k, prv):
+        return version + bytes([depth]) + pfp + index.to_bytes(4, "big") + c + (b"\x00" + k.to_bytes(32, "big") if prv else B32.ser(B32.pub(k)))
+
+    def walk(k, c, path):
+        depth, pfp, idx = 0, bytes(4), 0
+        for i in path:
+            pfp = B32.h160(B32.ser(B32.pub(k)))[:4]
+            k, c = B32.ckd_prv(k, c, i)
+            depth, idx = depth + 1, i
+        return k, c, depth, pfp, idx
+
+    H = 0x80000000
+    seen_versions = set()
+    for seed in seeds:
+        k0, c0 = B32.master(seed)
+        for netname, net in NETWORKS.items():
+            _, pkh_v, sh_v, hrp = TYPES[net.network_type]
+            for kind in KINDS:
+                for prv in (True, False):
+                    version = getattr(net, kind + ("_prv" if prv else "_pub"))
+                    if (seed, version) in seen_versions:
+                        continue
+                    seen_versions.add((seed, version))
+                    for at in ((), (H + 1, 2, H + 3)):
+                        k, c, depth, pfp, idx = walk(k0, c0, at)
+                        text = A.b58check_encode(payload(version, depth, pfp, idx, c, k, prv))
+                        h = B32.h160(B32.ser(B32.pub(k)))
+                        exp = {"bip32": A.b58check_encode(bytes([pkh_v]) + h), "slip132_p2wpkh": A.segwit_encode(hrp, 0, h),
+                               "slip132_p2wpkh_p2sh": A.b58check_encode(bytes([sh_v]) + B32.h160(b"\x00\x14" + h))}.get(kind)
+                        case = {"network": netname, "kind": kind, "private": prv, "depth": depth}
+                        # ---- address_from_xkey / address_from_xpub
+                        for fname, f in (("address_from_xkey", slip132.address_from_xkey), ("address_from_xpub", slip132.address_from_xpub)):
+                            st.evals += 1
+                            st.nontrivial += 1
+                            try:
+                                got = f(text)
+                            except errs:
+                                got = None
+                            want = None if (fname == "address_from_xpub" and prv) else exp
+                            if got != want:
+                                st.violation(f"C06/slip132/{fname}/{kind}/" + ("wrong-or-refused" if want else "accepted-what-has-no-address"), case, got, want)
+                        # ---- the three per-purpose account keys: version of the purpose on the key's own network type,
+                        # key material = the BIP32 reference derivation
+                        for fname, f, okind in (("p2pkh_xkey", slip132.p2pkh_xkey, "bip32"), ("p2wpkh_p2sh_xkey", slip132.p2wpkh_p2sh_xkey, "slip132_p2wpkh_p2sh"),
+                                                ("p2wpkh_xkey", slip132.p2wpkh_xkey, "slip132_p2wpkh")):
+                            tnet = NETWORKS[TYPES[net.network_type][0]]
+                            for path_name, path in (("default", None), ("m", ()), ("m/0/7", (0, 7)), ("m/5h/0", (H + 5, 0))):
+                                for check_root in (True, False):
+                                    st.evals += 1
+                                    kw = {"check_root_xkey": check_root}
+                                    if path is None:
+                                        real = {"p2pkh_xkey": (H + 44, H, H), "p2wpkh_p2sh_xkey": (H + 49, H, H), "p2wpkh_xkey": (H + 84, H, H)}[fname]
+                                    else:
+                                        real = path
+                                        kw["der_path"] = "m" + "".join("/%d%s" % (i & (H - 1), "h" if i >= H else "") for i in path)
+                                    hardened = any(i >= H for i in real)
+                                    should = (depth == 0 or not check_root) and (prv or not hardened)
+                                    try:
+                                        got = f(text, **kw)
+                                    except errs:
+                                        got = None
+                                    c2 = dict(case, function=fname, path=path_name, check_root_xkey=check_root)
+                                    if not should:
+                                        st.nontrivial += 1
+                                        if got is not None:
+                                            st.violation(f"C06/slip132/{fname}/derives-what-it-must-refuse", c2, got, "refused")
+                                        continue
+                                    kk, cc, d2, pfp2, idx2 = k, c, depth, pfp, idx
+                                    for i in real:
+                                        pfp2 = B32.h160(B32.ser(B32.pub(kk)))[:4]
+                                        kk, cc = B32.ckd_prv(kk, cc, i)
+                                        d2, idx2 = d2 + 1, i
+                                    ver = getattr(tnet, okind + ("_prv" if prv else "_pub"))
+                                    want = A.b58check_encode(payload(ver, d2, pfp2, idx2, cc, kk, prv))
+                                    st.nontrivial += 1
+                                    if got != want:
+                                        st.violation(f"C06/slip132/{fname}/differs-from-reference-derivation", c2, got, want)
+    return st
+
+
 def ripemd(ctx):
     from btclib import _ripemd160
     from btclib.hashes import hash160
@@ -568,6 +664,7 @@ SUBS = [
     ("address_script", address_script),
     ("classifier", classifier),
     ("keys_and_prefixes", keys_and_prefixes),
+    ("slip132_keys", slip132_keys),
     ("ripemd", ripemd),
     ("silent_payment_addresses", silent_payment_addresses),
 ]
